@@ -26,7 +26,7 @@ _SORT = {'int': lambda: z3.IntSort(), 'bool': lambda: z3.BoolSort(), 'str': lamb
 
 class YSeq(SList):
     """ghost sequence of yielded items"""
-    __slots__ = ('shape', 'funcs', 'objs', 'src_fn', 'pos_fn')
+    __slots__ = ('shape', 'funcs', 'objs', 'src_fn', 'pos_fn', '_last_src')
 
     def __init__(self, uid):
         SList.__init__(self, z3.IntVal(0), None, uid)
@@ -75,6 +75,13 @@ class YSeq(SList):
 
         store((), shape, v)
         if src_index is not None:
+            key = z3.simplify(src_index).sexpr() if z3.is_expr(src_index) else str(src_index)
+            if getattr(self, '_last_src', None) == key:
+                # two yields for the same iteration of the symbolic loop: pos_of(src) would get two values and the
+                # path condition would become contradictory (a vacuous proof)
+                raise Unsupported('the generator yields more than once per iteration of a symbolic loop '
+                                  '(the ghost map pos_of is not a function)')
+            self._last_src = key
             st.assume(self.src_fn(n) == src_index)
             st.assume(self.pos_fn(src_index) == n)
         self.length = z3.simplify(n + 1)
@@ -109,6 +116,8 @@ class CollectGen:
 
     def do_yield(self, v):
         interp = self.interp
+        if isinstance(v, (SOpt, SChoice)):
+            v = interp.resolve(v)           # e.g. `if x is not None: yield x`
         src = None
         # position of the innermost symbolic loop, if any (for the `src` / `pos_of` ghost maps)
         if interp.loop_index_stack:
